@@ -329,4 +329,14 @@ def _write_evidence(module, prop, tier, seed, stats, wall, nviol, nshards, regre
 
 
 if __name__ == "__main__":
-    sys.exit(main())
+    try:
+        _rc = main()
+    except SystemExit:
+        raise
+    except BaseException:  # noqa: BLE001 - a crash of the harness itself is exit 2, never exit 1
+        import traceback
+
+        traceback.print_exc()
+        print("harness error: check.py crashed", file=sys.stderr)
+        sys.exit(2)
+    sys.exit(_rc)
